@@ -473,12 +473,23 @@ class Model:
                 out.extend(x.tags)
         if U.parentish(x.kind):
             if U.has_o2m:
-                out.extend(self.children_of(x))
+                out.extend(o for o in self.objs if o.parent is x and o.state in "TPSX")
             if x.fav is not None:
                 out.append(x.fav)
         if x.kind == "Tag" and U.has_items:
-            out.extend(self.items_of(x))
+            out.extend(o for o in self.objs if x in o.tags and o.state in "TPSX")
         return out
+
+    def propagate_dead(self):
+        """an out-of-session object that still references a discarded object is discarded with it
+        (its save-update cascade would drag the discarded object back into the session)"""
+        changed = True
+        while changed:
+            changed = False
+            for o in self.objs:
+                if not o.dead and o.state == "T" and any(n.dead for n in self.neighbors(o)):
+                    o.dead = True
+                    changed = True
 
     # ---- canonical rows
     def canonical(self, rows=None, pairs=None):
@@ -520,6 +531,7 @@ class Model:
             if c.state == "P":
                 c.state = "T"
                 c.dead = True
+                self.propagate_dead()
                 return "orphan_expunged"
             if c.state == "S":
                 self.m_delete(c)
@@ -619,7 +631,10 @@ class Model:
         if o.kind == "SubChild":
             o.vals["extra"] = row.get("extra")
         if U.childish(o.kind):
-            o.parent = self.by_uid("Node" if U.fam == "node" else "Parent", row["parent"]) if row["parent"] is not None else None
+            if o.parent is not None and o.parent.state == "T" and not o.parent.dead and row["parent"] is None:
+                pass  # still a member of a transient parent's collection (nothing of that parent expires)
+            else:
+                o.parent = self.by_uid("Node" if U.fam == "node" else "Parent", row["parent"]) if row["parent"] is not None else None
             if U.fam == "pct":
                 o.tags = [self.by_uid("Tag", t) for (c, t) in sorted(self.pairs) if c == o.uid]
                 o.tags = [t for t in o.tags if t is not None]
@@ -659,6 +674,7 @@ class Model:
         for o in self.objs:
             if o.state == "S" and not o.dead:
                 self.m_reload(o)
+        self.propagate_dead()
         del self.stack[depth + 1 :]
         if depth == 0:
             del self.stack[:]
@@ -682,15 +698,24 @@ OPS_ALL = [
 VALS = [None, 0, 1, 2, 3, -1]
 
 
-def ops_strategy(codes, min_size=4, max_size=40, prelude=(2, 6)):
+def ops_strategy(codes, max_size=40, setup_codes=None, mid=("commit",)):
+    """history = a few creations, a setup phase, a commit (so that later operations meet persistent,
+    expired objects), then the main phase.  <= max_size ops in total"""
     small = st.integers(0, 15)
     op = st.tuples(st.sampled_from(codes), small, small, small).map(list)
+    sop = st.tuples(st.sampled_from(setup_codes or SETUP_CODES), small, small, small).map(list)
     newop = st.tuples(st.just("new"), small, small, st.integers(0, 3)).map(list)
+    midop = st.tuples(st.sampled_from(list(mid)), small, small, small).map(list)
     return st.builds(
-        lambda pre, body: pre + body,
-        st.lists(newop, min_size=prelude[0], max_size=prelude[1]),
-        st.lists(op, min_size=min_size, max_size=max_size - prelude[1]),
+        lambda pre, setup, m, body: (pre + setup + [m] + body)[:max_size],
+        st.lists(newop, min_size=3, max_size=6),
+        st.lists(sop, min_size=2, max_size=8),
+        midop,
+        st.lists(op, min_size=8, max_size=max_size - 15),
     )
+
+
+SETUP_CODES = ["new", "add", "append", "append", "setparent", "setparent", "tagadd", "tagadd", "fav", "set", "replace", "flush"]
 
 
 class Interp:
@@ -723,6 +748,8 @@ class Interp:
         self.counters = {"flush_checks": 0, "tx_checks": 0, "ops": 0, "skipped": 0}
         self.warnings = []
         self.trace = []
+        self.triggers = []  # known-finding triggers deliberately executed (pinned replays only)
+        self.orphan_of = {}  # idx of an orphan-deleted object -> former parent
         event.listen(self.session, "after_flush_postexec", self._on_flush)
         self._observer = None
 
@@ -744,20 +771,36 @@ class Interp:
             sautil.remove_db(self.engine)
 
     def viol(self, sig, msg, observed=None, expected=None):
+        if self.triggers and (sig.startswith("rows/") or sig.startswith("memory/") or sig.startswith("state/") or sig.startswith("reload/")):
+            sig = self.triggers[0]
         raise Violation(f"{self.prop}/{sig}", msg + f"  [cfg={canon(self.U.cfg)} trace={self.trace[-12:]}]", observed=observed, expected=expected)
 
     def do(self, fn, label=None):
         """run one real action; if it autoflushed, the model flushes first (the
         flush precedes the mutation in every operation used here)"""
         before = self.flush_count
-        r = fn()
+        r = self.guard(fn)
         if self.flush_count != before:
             self.model.m_flush()
             self._note_flush()
             self.pending_check = True
         return r
 
+    def guard(self, fn):
+        """run real code that may flush; classify the one exception with a known root cause"""
+        from sqlalchemy.exc import CircularDependencyError
+
+        try:
+            return fn()
+        except CircularDependencyError as e:
+            if self.U.fam == "node":
+                self.viol("flush/spurious-circular-dependency-on-tree-rearrangement",
+                          "flush raised CircularDependencyError although the final adjacency list is a tree and "
+                          f"only UPDATEs are needed: {str(e)[:200]}")
+            raise
+
     def _note_flush(self):
+        self.orphan_of = {}
         mix = len(self.flush_kinds)
         if mix >= 2 and len(self.flush_mappers) >= 2:
             self.classes.add("mixed-flush")
@@ -839,7 +882,9 @@ class Interp:
         self.touch("add", o)
 
     def op_add(self, a, b, c):
-        o = self.pick(self.pool(lambda o: o.state in "TX"), a) or self.pick(self.pool(lambda o: True), a)
+        # (re-adding a persistent object is a no-op except for its cascade, which raises on the deleted
+        # objects that loaded collections are documented to keep until expired: not generated)
+        o = self.pick(self.pool(lambda o: o.state in "TX"), a)
         if o is None:
             return False
         self._add(o)
@@ -859,10 +904,52 @@ class Interp:
     def _cycle(self, c, p):
         return self.U.fam == "node" and (c is p or p in self.model.descendants(c))
 
+    def _union_cycle_hazard(self, c, p):
+        """node family: would (edges already flushed) + (in-memory edges incl. c->p) contain a cycle?
+        The unit of work sorts on old and new edges together and then raises CircularDependencyError
+        although the final graph is a tree (known finding); programs flush first instead."""
+        if self.U.fam != "node":
+            return False
+        m = self.model
+        edges = {}
+        for o in m.objs:
+            if o.dead or o.state not in "PS":
+                continue
+            ps = set()
+            if o.parent is not None:
+                ps.add(o.parent.idx)
+            row = m.rows.get(("Node", o.uid))
+            if row is not None and row.get("parent") is not None:
+                q = m.by_uid("Node", row["parent"])
+                if q is not None:
+                    ps.add(q.idx)
+            edges[o.idx] = ps
+        edges.setdefault(c.idx, set()).add(p.idx)
+        # cycle reachable from c?
+        seen, todo = set(), [p.idx]
+        while todo:
+            x = todo.pop()
+            if x == c.idx:
+                return True
+            if x in seen:
+                continue
+            seen.add(x)
+            todo.extend(edges.get(x, ()))
+        return False
+
+    def _split_flush_for_tree_move(self, c, p):
+        if self._union_cycle_hazard(c, p) and not self.pinned:
+            self.ctx.exclude("adjacency list: old + new parent edges of one flush form a cycle -> CircularDependencyError (known finding); flushed first")
+            self._explicit_flush("pre-flush")
+            return True
+        return False
+
     def _preload_parent(self, c):
         """read c.parent first when the old parent's collection is loaded but c.parent is not, so
         that the backref can maintain the old collection (otherwise it is documented to stay stale)"""
-        if self.U.is_bidir and c.state == "S" and c.parent is not None and "parent" not in c.real.__dict__:
+        # (many-to-one only: without the old value the unit of work cannot order the deletes of the old
+        # parent and of this row either)
+        if self.U.has_m2o and c.state == "S" and c.parent is not None and "parent" not in c.real.__dict__:
             self.do(lambda: c.real.parent)
 
     def _ensure_session_for_link(self, initiator, target):
@@ -872,12 +959,14 @@ class Interp:
         if target is not None and not m.insess(initiator) and m.insess(target):
             self._add(initiator)
 
-    def _orphan_move_hazard(self, c, newp):
+    def _orphan_move_hazard(self, c, newp, newp_in_session=None):
         """pending child moved to another parent in one step under delete-orphan (known finding)"""
         if not (self.U.casc_orphan and self.U.is_bidir and c.parent is not None and newp is not None and newp is not c.parent):
             return False
         # the child is (or becomes, through the cascade of this very operation) pending
-        return c.state == "P" or (c.state == "T" and self.model.insess(newp))
+        if newp_in_session is None:
+            newp_in_session = self.model.insess(newp)
+        return c.state == "P" or (c.state == "T" and newp_in_session)
 
     def _can_unparent(self, c):
         # pending orphan expunge cascades over 'children' under cascade=all: keep it to leaves
@@ -889,7 +978,7 @@ class Interp:
             row = self.model.rows.get((self.U.root(c.kind), c.uid))
             if row is None or row.get("parent") != c.parent.uid:
                 return False
-            return self._can_delete(c)
+            return self._can_delete(c) and self._orphan_cascade_ok(c)
         return True
 
     def _coll_add(self, coll, x):
@@ -902,20 +991,27 @@ class Interp:
             return False
         if self._cycle(c, p):
             return False
-        if self._orphan_move_hazard(c, p) and not self.pinned:
-            self.ctx.exclude("delete-orphan: pending child moved to another parent in one step (known finding)")
-            return False
+        if self._orphan_move_hazard(c, p):
+            if not self.pinned:
+                self.ctx.exclude("delete-orphan: pending child moved to another parent in one step (known finding)")
+                return False
+            self.triggers.append("delete-orphan/pending-child-moved-to-other-parent-is-expunged")
         if old is not None and not self.U.is_bidir:
             # no backref: the application removes the child from the old collection itself
             if not m.insess(old) and m.insess(c):
                 self._add(old)
             if not self._can_unparent_for_move(c):
                 return False
+            if p.state == "S" and "children" not in p.real.__dict__:
+                # load the target first: its lazy load would autoflush between the two steps of the move
+                # (and, under delete-orphan, delete the momentarily parentless row)
+                self.do(lambda: p.real.children)
             self.do(lambda: old.real.children.remove(c.real))
             moved_state = c.state
             c.parent = None
             if self.U.casc_orphan and moved_state == "P":
                 c.state = "T"  # documented: pending orphan is expunged, re-attached by the append below
+        self._split_flush_for_tree_move(c, p)
         self._preload_parent(c)
         self._ensure_session_for_link(p, c)
         self.do(lambda: self._coll_add(p.real.children, c.real))
@@ -939,12 +1035,17 @@ class Interp:
         return self._link_via_collection(p, ch)
 
     def _unparent_model(self, ch):
+        self._unparent_from = ch.parent
+        had_kids = bool(self.model.children_of(ch))
         r = self.model.m_setparent(ch, None)
+        if r == "orphan_deleted" and not had_kids:
+            self._unparent_from = None  # nothing to cascade to: harmless
         if r == "orphan_expunged":
             self.classes.add("pending-orphan-expunged")
         elif r == "orphan_deleted":
             self.classes.add("orphan-delete")
             self.flush_kinds.add("delete")
+            self.orphan_of[ch.idx] = self._unparent_from
 
     def op_remove(self, a, b, c):
         if not self.U.has_o2m:
@@ -1001,10 +1102,14 @@ class Interp:
                 return False
             if k.parent is not None and not self.U.is_bidir:
                 return False  # without a backref a move needs an explicit removal first
-            if self._orphan_move_hazard(k, p):
+            if self._orphan_move_hazard(k, p, m.insess(p) or any(m.insess(x) for x in added)):
                 if not self.pinned:
                     self.ctx.exclude("delete-orphan: pending child moved to another parent in one step (known finding)")
-                return False
+                    return False
+                self.triggers.append("delete-orphan/pending-child-moved-to-other-parent-is-expunged")
+        if any(self._union_cycle_hazard(k, p) for k in added) and not self.pinned:
+            self.ctx.exclude("adjacency list: old + new parent edges of one flush form a cycle -> CircularDependencyError (known finding); flushed first")
+            self._explicit_flush("pre-flush")
         if added and not m.insess(p) and any(m.insess(k) for k in added):
             self._add(p)
         for k in added + removed:
@@ -1014,13 +1119,13 @@ class Interp:
             new.reverse()
         value = new if self.U.cfg["coll"] == "list" else set(new)
         self.do(lambda: setattr(p.real, "children", value))
-        for k in removed:
-            self._unparent_model(k)
-        for k in added:
+        for k in added:  # first: a child moved here from a removed one must not be cascade-deleted with it
             if m.insess(p):
                 m.m_add(k)
             k.parent = p
             k.stale = False
+        for k in removed:
+            self._unparent_model(k)
         self.touch("replace", p, *(added + removed))
         if not (added or removed):
             self.flush_kinds.discard("replace")
@@ -1037,7 +1142,9 @@ class Interp:
             if not self.pinned:
                 self.ctx.exclude("delete-orphan: pending child moved to another parent in one step (known finding)")
                 return False
+            self.triggers.append("delete-orphan/pending-child-moved-to-other-parent-is-expunged")
         old = ch.parent
+        self._split_flush_for_tree_move(ch, p)
         self._preload_parent(ch)
         self._ensure_session_for_link(ch, p)
         self.do(lambda: setattr(ch.real, "parent", p.real))
@@ -1132,8 +1239,10 @@ class Interp:
         p = self.pick(self.pool(lambda o: o.kind == "Parent" and o.state in "TPS"), a)
         if p is None:
             return False
-        if p.state == "S" and not self.U.has_o2m and self.U.cfg["natpk"] == "orm":
-            pass  # many-to-one only: the unit of work searches the identity map (all our children are in it)
+        if p.state == "S" and self.U.has_o2m and not self.U.cfg["autoflush"] and "children" not in p.real.__dict__:
+            # with autoflush off, an unloaded collection would later be loaded by the *new* key value
+            # (and come back empty); an application in that mode loads it before switching the key
+            self.do(lambda: p.real.children)
         m.name_ctr += 1
         name = f"k{m.name_ctr}"
         self.do(lambda: setattr(p.real, "name", name))
@@ -1146,6 +1255,9 @@ class Interp:
         m, U = self.model, self.U
         if o.state != "S":
             return False
+        row0 = m.rows.get((U.root(o.kind), o.uid))
+        if row0 is not None and "name" in row0 and row0["name"] != o.vals.get("name"):
+            return False  # key switched but not flushed, then deleted: a void combination (see report: post_update uses the new key)
         seen = seen or set()
         seen.add(o.idx)
         if U.parentish(o.kind):
@@ -1170,6 +1282,11 @@ class Interp:
                 row = m.rows.get((U.root(o.kind), o.uid))
                 if row is None or row.get("parent") != o.parent.uid:
                     return False
+            if U.fam == "pct":
+                for t in o.tags:
+                    # association not flushed yet: the other side's save would insert it while this row is deleted
+                    if (o.uid, t.uid) not in m.pairs or t.state != "S":
+                        return False
             for q in m.objs:
                 if q.fav is o and q.state != "G" and not q.dead:
                     return False  # a favourite must be cleared by the application first
@@ -1185,9 +1302,22 @@ class Interp:
                     return False
         return True
 
+    def _orphan_cascade_ok(self, o):
+        """o (and its delete-cascade closure) is about to be deleted; false if that triggers the known
+        finding 'delete cascade of an unflushed orphan is lost when its former parent is deleted too'"""
+        closure = [o] + (self.model.descendants(o) if self.U.casc_delete else [])
+        if any(par is not None and par in closure and self.model.objs[i].state == "D" for i, par in self.orphan_of.items()):
+            if not self.pinned:
+                self.ctx.exclude("delete-orphan: former parent of an unflushed orphan (with children) deleted in the same flush (known finding)")
+                return False
+            self.triggers.append("delete-orphan/delete-cascade-of-orphan-lost-when-former-parent-deleted")
+        return True
+
     def op_delete(self, a, b, c):
         o = self.pick(self.pool(lambda o: o.state == "S"), a)
         if o is None or not self._can_delete(o):
+            return False
+        if not self._orphan_cascade_ok(o):
             return False
         self.do(lambda: self.session.delete(o.real))
         mappers = [o] + (self.model.descendants(o) if self.U.casc_delete else [])
@@ -1333,7 +1463,7 @@ class Interp:
     def _explicit_flush(self, why="flush"):
         self.pre_flush()
         before = self.flush_count
-        self.session.flush()
+        self.guard(self.session.flush)
         self.model.m_flush()
         self._note_flush()
         self.pending_check = False
@@ -1347,7 +1477,13 @@ class Interp:
         if U.fam != "pct" or U.cfg["fk_nullable"]:
             return
         for o in list(m.objs):
-            if not (U.childish(o.kind) and o.state in "PS" and not o.dead and o.parent is None):
+            if U.childish(o.kind) and o.state in "PS" and not o.dead and o.parent is not None and o.parent.state == "T" and not o.parent.dead:
+                self._add(o.parent)  # one-to-many only: the child was added without its (transient) parent
+                self.classes.add("repair-add-parent")
+            if not (U.childish(o.kind) and o.state in "PS" and not o.dead and (o.parent is None or not m.insess(o.parent))):
+                continue
+            if o.parent is not None:
+                # parent is detached/discarded: take the child out of that collection first
                 continue
             ps = self.pool(lambda q: q.kind == "Parent" and q.state in "PS")
             if ps and not (U.casc_orphan and o.state == "S"):
@@ -1384,7 +1520,7 @@ class Interp:
     def op_commit(self, a, b, c):
         self.pre_flush()
         depth = len(self.nested)
-        self.session.commit()
+        self.guard(self.session.commit)
         del self.nested[:]
         self.model.m_commit()
         self._note_flush()
@@ -1399,6 +1535,7 @@ class Interp:
         self.model.m_rollback_to(0)
         self.flush_kinds = set()
         self.flush_mappers = set()
+        self.orphan_of = {}
         self.pending_check = False
         self.classes.add("rollback" if not depth else "rollback-through-savepoints")
         self.check_tx_point("rollback", outer=True)
@@ -1408,7 +1545,7 @@ class Interp:
             return False
         self.pre_flush()
         before = self.flush_count
-        self.nested.append(self.session.begin_nested())
+        self.nested.append(self.guard(self.session.begin_nested))
         self.model.m_flush()
         self._note_flush()
         self.model.push()
@@ -1420,7 +1557,7 @@ class Interp:
         if not self.nested:
             return self.op_flush(a, b, c)
         self.pre_flush()
-        self.nested.pop().commit()
+        self.guard(self.nested.pop().commit)
         self.model.m_release()
         self._note_flush()
         self.pending_check = False
@@ -1438,6 +1575,7 @@ class Interp:
         self.model.m_rollback_to(k + 1)
         self.flush_kinds = set()
         self.flush_mappers = set()
+        self.orphan_of = {}
         self.pending_check = False
         self.classes.add("savepoint-rollback" if k == len(self.nested) else "savepoint-rollback-outer-of-several")
         self.check_tx_point("nrollback", outer=False)
